@@ -311,6 +311,54 @@ def mega(case, ctx):
     cm.compare_field("C02.mega", got, ref, tol, np.ones(full, dtype=bool), what=f"pupil {m}x{n} out {full}")
 
 
+# --- both transform kernels large at once ---------------------------------------------------------------------------
+
+@hyp("C02", "both_kernels", lambda tier: st.fixed_dictionaries(
+        # (four cases in five above 2^24 elements per kernel: a size above a threshold is above every lower one too)
+        {"K": st.one_of(st.floats(24.05, 24.6), st.floats(24.05, 24.6), st.floats(24.05, 24.6), st.floats(24.05, 24.6), st.floats(22.2, 24.0)),
+         "long": st.integers(9000, 17000), "swap": st.booleans(), "seed": st.integers(0, 2**31 - 1),
+         "q": st.tuples(st.floats(0.2, 0.9), st.floats(0.2, 0.9))}),
+     "a long pupil imaged onto a window that is long on the OTHER axis, so that the row kernel (window rows x pupil "
+     "rows) and the column kernel (pupil columns x window columns) both hold 2^22 .. 2^24.6 elements: 400 output samples "
+     "spread over the whole window vs the Fraunhofer sum", examples=(3, 4), budget_s=(500, 900), max_shards=2)
+def both_kernels(case, ctx):
+    K = int(2 ** case["K"])
+    L = case["long"]
+    S = max(2, K // L + 1)                       # short side: L * S > K on both axes
+    m, n = (L, S) if not case["swap"] else (S, L)    # pupil
+    M, N = n, m                                   # window: long where the pupil is short
+    rng = np.random.default_rng(case["seed"])
+    wl, z, dx = 1e-6, 2.0, 1e-3
+    amp = rng.uniform(0.3, 1.0, size=(m, n))
+    opd = rng.normal(size=(m, n)) * 0.05 * wl
+    du = (case["q"][0] / max(m, M) * wl * z / dx, case["q"][1] / max(n, N) * wl * z / dx)
+    ctx.tag(f"row_kernel:2^{int(np.log2(M * m))}", f"col_kernel:2^{int(np.log2(n * N))}", "pupil_long_rows" if m > n else "pupil_long_cols")
+    ctx.nontrivial_if(True)
+    with lentil_call("C02.both_kernels", f"propagate_dft(pupil {m}x{n} -> window {M}x{N})"):
+        w = lentil.Wavefront(wl) * lentil.Pupil(amplitude=amp, opd=opd, pixelscale=dx, focal_length=z)
+        got = lentil.propagate_dft(w, pixelscale=du, shape=(M, N), oversample=1).field
+    if got.shape != (M, N):
+        raise Violation("C02.both_kernels.shape", f"field of shape {got.shape}, expected {(M, N)}")
+    # the defining sum at 20 x 20 output samples spread over the whole window (first, last and random rows / columns)
+    a = pm.alpha((dx, dx), du, wl, z, 1)
+    rows = np.unique(np.concatenate([[0, M - 1, M // 2], rng.integers(0, M, size=17)]))
+    cols = np.unique(np.concatenate([[0, N - 1, N // 2], rng.integers(0, N, size=17)]))
+    f = amp * np.exp(2j * np.pi * opd / wl)
+    x = np.arange(m) - m // 2
+    y = np.arange(n) - n // 2
+    E1 = np.exp(-2j * np.pi * a[0] * np.outer(rows - M // 2, x))
+    E2 = np.exp(-2j * np.pi * a[1] * np.outer(y, cols - N // 2))
+    ref = (E1 @ f @ E2) * np.sqrt(a[0] * a[1])
+    sub = got[np.ix_(rows, cols)]
+    tol = 1e-9 * np.sqrt(a[0] * a[1]) * float(np.sum(amp))
+    err = np.abs(sub - ref)
+    if float(err.max()) > tol:
+        i, j = np.unravel_index(int(np.argmax(err)), err.shape)
+        raise Violation("C02.both_kernels.value", f"pupil {m}x{n} -> window {M}x{N}: output sample ({int(rows[i])}, {int(cols[j])}) is "
+                                                  f"{complex(sub[i, j]):.6g}, the Fraunhofer sum is {complex(ref[i, j]):.6g} "
+                                                  f"({int((err > tol).sum())} of {err.size} checked samples differ)")
+
+
 # --- an output window slid sample by sample over the same propagation --------------------------------------------
 
 @st.composite
